@@ -40,7 +40,9 @@ GExtra == << GX("int g1;", <<"g1">>, <<>>, <<>>, <<>>),
              GX("after_update { j = 1 }", <<>>, <<>>, <<>>, <<F("after_update", "j = 1")>>),
              GX("chan priority c < default;", <<>>, <<>>, <<>>, <<F("chan_priority", "c<default")>>),
              GX("const int K2[2] = {1, 2};", <<"K2">>, <<>>, <<>>, <<>>),
-             GX("void lp() { for (k : int[0,1]) { i = k; } while (i > 0) { i--; } }", <<>>, <<"lp">>, <<>>, <<>>) >>
+             GX("void lp() { for (k : int[0,1]) { i = k; } while (i > 0) { i--; } }", <<>>, <<"lp">>, <<>>, <<>>),
+             GX("void rt() { if (i > 0) return; i = 1; }", <<>>, <<"rt">>, <<>>, <<>>),
+             GX("int st(int v) { int t = 0; for (t = 0; t < v; t++) { ; } do { t--; } while (t > 0); if (t == 0) { t = 1; } else t = 2; assert(t > 0); { int u = t; t = u; } return t; }", <<>>, <<"st">>, <<>>, <<>>) >>
 (* declarations that follow the process list in the system block *)
 SysX == << [txt |-> "progress { i; }", feat |-> <<F("progress", "i")>>],
            [txt |-> "gantt { G(k : int[0,1]) : i == k -> 1; }", feat |-> <<F("gantt", "G")>>] >>
